@@ -123,5 +123,54 @@ void h_edge(void) {
                 trusted=["cbmc 6.11 + DFCC, SAT back end"])
 
 
+def _pline_unit(maxn=6):
+    """K24c: the problem-line branch: sscanf("p %s %lu %lu") by its contract, then one vertex per declared node, keyed 1..n - the state
+    K24b takes as precondition."""
+    from units.k17b_bfs import _fresh
+    log = []
+    text = X.src("include/parmcb/util.hpp")
+    blk = X.stmt_after(text, r"if \(buffer\[0\] == 'c' \|\| buffer\[0\] == '#'\)", r"if\s*\(buffer\[0\] == 'p'\)", "problem-line branch of read_dimacs_from_file")
+    body = blk[blk.index("{") + 1:blk.rindex("}")]
+    body = X.rewrite(body, [
+        (r"sscanf\(buffer, \"p %s %lu %lu\", problem, &(\w+), &(\w+)\)", r"vp_sscanf_p(&\1, &\2)", 1, "container-api", "sscanf with this format -> its contract"),
+        (r"std::size_t", "size_t", (1, 2), "type-binding", ""),
+        (r"vertex_map\[i\] = boost::add_vertex\(graph\);", "MAPV[i] = vp_nv; MAPSET[i] = 1; vp_nv++;", 1, "container-api", "add_vertex returns the next ordinal (vecS); map insert at key i"),
+    ], log)
+    inv = ("__CPROVER_assigns(i, vp_nv, __CPROVER_object_whole(MAPV), __CPROVER_object_whole(MAPSET))\n"
+           "__CPROVER_loop_invariant(1 <= i && i <= nnodes + 1 && vp_nv == i - 1 && ALLK(qk, (qk >= 1 && qk < i) ==> (MAPSET[qk] && MAPV[qk] == qk - 1)) && ALLK(qm, (qm >= i || qm == 0) ==> !MAPSET[qm]) && nnodes == vp_decl_n)\n"
+           "__CPROVER_decreases(nnodes + 1 - i)")
+    body = X.splice_loop_contracts(body, {0: inv}, log)
+    fn = r"""
+#include <stddef.h>
+typedef _Bool bool;
+#define MAXN %(MAXN)d
+size_t vp_decl_n, vp_decl_m;                       /* ghost: the two numbers on the problem line */
+size_t vp_nv; size_t MAPV[MAXN + 2]; bool MAPSET[MAXN + 2];       /* graph vertex count; std::map<size_t, vertex> as table + presence flags */
+#define ALLK(k, body) __CPROVER_forall { size_t k; (k < MAXN + 2) ==> (body) }
+int vp_sscanf_p(size_t *nnodes, size_t *nedges)
+__CPROVER_requires(__CPROVER_w_ok(nnodes, sizeof(size_t)) && __CPROVER_w_ok(nedges, sizeof(size_t)))
+__CPROVER_assigns(*nnodes, *nedges)
+__CPROVER_ensures(__CPROVER_return_value == 3 && *nnodes == vp_decl_n && *nedges == vp_decl_m)
+;
+void p_line(void)
+__CPROVER_requires(vp_decl_n <= MAXN && vp_nv == 0 && ALLK(rk, !MAPSET[rk]))            /* empty graph, empty map: first problem line */
+__CPROVER_assigns(vp_nv, __CPROVER_object_whole(MAPV), __CPROVER_object_whole(MAPSET))
+/* as many vertices as declared; the map holds exactly the keys 1..n, key i -> vertex i-1 */
+__CPROVER_ensures(vp_nv == vp_decl_n && ALLK(pk, (!MAPSET[pk]) == !(pk >= 1 && pk <= vp_decl_n)) && ALLK(pj, (pj >= 1 && pj <= vp_decl_n) ==> MAPV[pj] == pj - 1))
+{
+  size_t nnodes, nedges;
+  %(BODY)s
+}
+size_t vp_in_n;
+void h_p(void) { vp_in_n = vp_decl_n; p_line(); __CPROVER_assert(0, "VP_REACH end of harness"); }
+""" % dict(MAXN=maxn, BODY=body)
+    return dict(unit="K24c_problem_line", lang="c", source="include/parmcb/util.hpp read_dimacs_from_file (branch for the 'p' line)", text=_fresh(fn), entry="h_p", enforce="p_line",
+                replace=["vp_sscanf_p"], mode="proof", loop_contracts=True, unwind=14, flags=["--object-bits", "12"], timeout=300, rewrites=log,
+                bound="proved(declared vertices <= %d): the loop closed by its contract with quantified invariants" % maxn,
+                dropped=["the surrounding loop; the local declarations of nnodes / nedges are those of the function"], functions={"read_dimacs_from_file: problem-line branch": "proved(n<=%d)" % maxn},
+                assumptions=["contract of sscanf for this format; add_vertex returns consecutive ordinals (vecS); std::map insert through operator[]"],
+                trusted=["cbmc 6.11 + DFCC, SAT back end (bounded quantifier instantiation)"])
+
+
 def units(tier):
-    return [X.guarded("K24_line_normalisation", _unit), X.guarded("K24b_edge_line", _edge_unit)]
+    return [X.guarded("K24_line_normalisation", _unit), X.guarded("K24b_edge_line", _edge_unit), X.guarded("K24c_problem_line", _pline_unit)]
